@@ -28,6 +28,7 @@ def gen_case(rng, tier):
     prof["w_op"] = max(prof["w_op"], 1)
     prof["l3_kernels"] = True
     prof["multiblock"] = rng.random() < 0.2  # functions with several blocks (cf.br / cf.cond_br)
+    prof["streams"] = rng.random() < 0.25  # dart streaming regions on snax_xdma (DM for extension kernels) / snax_alu (compute)
     ast = B.BufGen(rng, prof).program()
     n = rng.choice([2, 2, 3, 3, 4, 5])
     envs = [B.gen_env(rng, n_cores=n) for _ in range(K_ENVS[tier])]
@@ -44,6 +45,8 @@ def roles_of(ast):
                 out[s["tag"]] = "dm"
             elif s["k"] == "gen":
                 out[f'k{s["tag"]}'] = "compute"
+            elif s["k"] == "stream":
+                out[s["tag"]] = "dm" if s["kind"] in ("xdma-add", "xdma-rescale-up", "xdma-rescale-down") else "compute"
             for key in ("body", "then", "else"):
                 walk(s.get(key, []))
 
